@@ -830,6 +830,13 @@ func runG10(r *Repo, rep *Report) {
 	// (every successful return, also one that skips generation altogether, must have rewritten or removed the file)
 	stop := func(b *cfg.Block) bool { return callsTo(b, print) || callsTo(b, del) }
 	reach := reachFirstIter(g, info, fi.Decl.Body, stop)
+	// both are over-approximations of the feasible paths; a block counts only if both reach it
+	byFacts := reachWithFacts(g, info, stop)
+	for b := range reach {
+		if !byFacts[b] {
+			delete(reach, b)
+		}
+	}
 	bad := false
 	body := &Body{Pkg: fi.Pkg, Sig: fi.Fn.Type().(*types.Signature), Type: fi.Decl.Type}
 	// a package without listed files has no directory (G26): returning at once is the only thing to do
